@@ -10,7 +10,7 @@
 (* printed as MISMATCH (or KNOWN <finding>) and counted; the trace is     *)
 (* accepted iff every line was consumed and nothing was counted.          *)
 (***************************************************************************)
-EXTENDS Bytes, UriCanon, Headers, Iso8601, KeyTerms, Json, IOUtils
+EXTENDS Bytes, UriCanon, Headers, Iso8601, KeyTerms, Errors, Json, IOUtils
 
 Rec == ndJsonDeserialize(IOEnv.TRACE)
 
@@ -85,8 +85,57 @@ AcceptKey(e) ==
               /\ \A i \in 1..Len(e.ksigning) : e.ksigning[i] = e.oracle[4].out
               /\ Len(e.kdate) = 1 /\ Len(e.kregion) = 2 /\ Len(e.kservice) = 3 /\ Len(e.ksigning) = 4
 
+\* C08 size ladder: POST <path> with a form body "a=" + n x 'b', folding on, no authentication.
+\* The rebuilt URI is path?a=bbb...; beyond the http crate's limit the request must be refused with a
+\* 400-class error (never a panic); otherwise it proceeds and is refused for lack of any carrier.
+MaxUri == 65534
+AcceptFoldSize(e) ==
+    IF Len(e.path) + 1 + 2 + e.n > MaxUri
+    THEN e.res = "err" /\ e.kind \in {"MalformedQueryString", "InvalidBodyEncoding"} /\ e.status = 400
+    ELSE IsErr(e, "MissingAuthenticationToken", 400)
+
+\* C13: kind -> code / status, for every variant and every conversion into SignatureError
+AcceptErr(e) ==
+    LET k == CASE e.via = "foreign" -> "InternalServiceError" [] e.via = "io" -> "IO" [] OTHER -> e.kind_in IN
+    /\ e.res = "err" /\ e.kind = k /\ e.code = Code(k) /\ e.status = Status(k)
+    /\ e.status \in {400, 403, 500}
+    /\ e.has_source = (k = "IO")
+    /\ e.debug_len > 0
+
+AcceptBuilders(e) ==
+    /\ e.res = "ok"
+    /\ \A i \in 1..Len(e.outs) : e.outs[i].res # "panic"
+    /\ \A i \in 1..Len(e.outs) :
+          LET n == e.outs[i].name IN
+          IF n \in {"GetSigningKeyRequest::full", "GetSigningKeyResponse::default", "SigV4AuthenticatorResponse::empty",
+                    "SigV4Authenticator::getters", "SignatureOptions"}
+          THEN e.outs[i].res = "ok"
+          ELSE e.outs[i].res = "err"          \* a required field is missing: an error value, not a panic
+
+\* C05: the dynamic requirements container is, for validation purposes, a case-insensitive set
+LowerSet(xs) == {LowerSeq(xs[i]) : i \in 1..Len(xs)}
+RECURSIVE ApplyOps(_, _, _, _)
+ApplyOps(S, ops, k, list) ==
+    IF k > Len(ops) THEN S
+    ELSE ApplyOps(IF ops[k].list # list THEN S
+                  ELSE IF ops[k].op = "add" THEN S \cup {LowerSeq(ops[k].name)}
+                  ELSE S \ {LowerSeq(ops[k].name)}, ops, k + 1, list)
+AcceptVreqs(e) ==
+    /\ e.res = "ok"
+    /\ LowerSet(e.got_always) = ApplyOps(LowerSet(e.always), e.ops, 1, "always")
+    /\ LowerSet(e.got_ifin)   = ApplyOps(LowerSet(e.ifin), e.ops, 1, "ifin")
+    /\ LowerSet(e.got_prefix) = ApplyOps(LowerSet(e.prefix), e.ops, 1, "prefix")
+
+\* C17: no rendering of a key-bearing public value contains key material
+AcceptLeakFn(e) == e.res = "ok" /\ \A i \in 1..Len(e.renders) : e.renders[i].taints = <<>>
+
 Accept(e) ==
     CASE e.op = "path"  -> AcceptPath(e)
+      [] e.op = "leakfn" -> AcceptLeakFn(e)
+      [] e.op = "foldsize" -> AcceptFoldSize(e)
+      [] e.op = "err"   -> AcceptErr(e)
+      [] e.op = "builders" -> AcceptBuilders(e)
+      [] e.op = "vreqs" -> AcceptVreqs(e)
       [] e.op = "hval"  -> AcceptHval(e)
       [] e.op = "ts"    -> AcceptTs(e)
       [] e.op = "key"   -> AcceptKey(e)
@@ -107,6 +156,7 @@ Expected(e) ==
       [] e.op = "hval"  -> NormValue(e.v)
       [] e.op = "ts"    -> Parse(e.s)
       [] e.op = "key"   -> [accepts |-> FromStrAccepts(e.secret, e.cap)]
+      [] e.op = "foldsize" -> [tooLong |-> Len(e.path) + 3 + e.n > MaxUri]
       [] OTHER -> "?"
 
 Count(reg) == TLCSet(reg, TLCGet(reg) + 1)
